@@ -122,6 +122,9 @@ def main(ctx):
     dist = {}
     samples = []
     n_inst = n_reply = n_pipe = 0
+    n_inst_inproc = n_reply_inproc = n_reply_proc = 0
+    read_policies = {}
+    reply_delivery = {}
     distinct = set()
 
     def crashed(sh_):
@@ -158,7 +161,9 @@ def main(ctx):
                       "order %s\n" % order, found_input=False)
 
     # ---- (a) the instances
-    total = 6000 if ctx.thorough else 1000
+    # one case in three is `dimacs/hist-inproc/*`: the same histories on a BufferedSatSolver driven in-process
+    # (crustabri::sat::verif_hooks), whose solving function reads the instance with adversarial buffer sizes
+    total = 9000 if ctx.thorough else 1500
     for sh_ in run_mode(ctx, h, d, "dimacs", total, extra=extra):
         if crashed(sh_):
             continue
@@ -171,6 +176,12 @@ def main(ctx):
             dist[kind] = dist.get(kind, 0) + 1
             bad, n = oracle_hist(c) if c.kind.startswith("dimacs/hist") else oracle_af(c)
             n_inst += n
+            if c.kind.startswith("dimacs/hist-inproc"):
+                n_inst_inproc += n
+                for e in c.evs:
+                    t = e.split()
+                    if len(t) >= 3 and t[1] == "read":
+                        read_policies[t[2]] = read_policies.get(t[2], 0) + 1
             if n >= 2:
                 distinct.add(hash(tuple(c.ins) + tuple(e for e in c.evs if " inst " in e)))
             if bad:
@@ -193,14 +204,23 @@ def main(ctx):
                 corr_broken = corr_broken or (c, "instance bytes / answers, line %d: impl `%s` model `%s`" % dd)
 
     # ---- (b) the replies
-    total = 12000 if ctx.thorough else 2400
-    for sh_ in run_mode(ctx, h, d, "reply", total, extra=extra):
+    # one case in 60 goes through a child process (ExternalSatSolver on `vdpll --print-file`); the others
+    # (`reply-inproc/*`) are returned by the solving function of an in-process BufferedSatSolver, in chunks
+    total = 120000 if ctx.thorough else 24000
+    for sh_ in run_mode(ctx, h, d, "reply", total, extra=extra + " --proc-every 60"):
         if crashed(sh_):
             continue
         impl, models, path = sh_
         mm = {c.id: c for c in models[0]}
         for c in impl:
             n_reply += 1
+            if c.kind.startswith("reply-inproc"):
+                n_reply_inproc += 1
+                for l in c.ins:
+                    if l.startswith("delivery "):
+                        reply_delivery[l[9:]] = reply_delivery.get(l[9:], 0) + 1
+            else:
+                n_reply_proc += 1
             got = norm_obs(c.outs[0]) if c.outs else "<none>"
             k = c.kind + " -> " + got[:1].replace("p", "panic")
             dist[k] = dist.get(k, 0) + 1
@@ -227,9 +247,14 @@ def main(ctx):
         "evaluations": n_inst + n_reply + n_pipe,
         "instances_captured": n_inst,
         "replies": n_reply,
+        "instances_read_in_process": n_inst_inproc,
+        "instance_read_policies": read_policies,
+        "replies_in_process": n_reply_inproc,
+        "replies_through_a_child_process": n_reply_proc,
+        "reply_delivery_policies": reply_delivery,
         "pipe_runs": n_pipe,
         "distinct_nontrivial": len(distinct),
-        "rule": "(a) every DIMACS instance received by the external program (driver/vdpll --dump) for incremental histories on ExternalSatSolver and for argumentation queries (CO/ST/PR/SST/STG/ID x SE/DC/DS, all encoders, generated frameworks) run through the external backend: bytes compared with the Coq printer, and read by an independent python DIMACS parser (header variable count >= every variable, exact clause count, clauses = those added so far + one unit per assumption); the strict parser of vdpll must accept (an answer S/U must come back). (b) generated replies through the real reader (ExternalSatSolver on `vdpll --print-file`): well-formed layouts (status first/last, any split of v lines, comments, empty lines, bare `v`, CRLF, tabs, `+` signs, UTF-8 comments) must yield the printed model / UNSAT; ill-formed classes (empty, no status, truncated before the 0, garbage line, status only, variable out of bounds, two zeros, two status lines, invalid UTF-8) must yield Unknown or a panic; random byte mutations compared with Dimacs.reply_parse only. (c) stub solvers emitting 0 B ... 4 MiB (8 MiB thorough) of comments before the answer, reading all / none of stdin, instance below / above the pipe capacity, each call under a 10 s watchdog; outcome compared with Model.Pipe run in the order found in exec_solver's source",
+        "rule": "(a) every DIMACS instance received by the external program (driver/vdpll --dump) for incremental histories on ExternalSatSolver and for argumentation queries (CO/ST/PR/SST/STG/ID x SE/DC/DS, all encoders, generated frameworks) run through the external backend: bytes compared with the Coq printer, and read by an independent python DIMACS parser (header variable count >= every variable, exact clause count, clauses = those added so far + one unit per assumption); the strict parser of vdpll must accept (an answer S/U must come back); one case in three (dimacs/hist-inproc) runs the history on an in-process BufferedSatSolver (verif hook) whose solving function reads the DimacsInstanceRead with an adversarial buffer policy per call (1 byte; fixed 2..17; random 1..64 per call; the preamble length, one less, one more; one 1 MiB buffer; zero-length reads interleaved, which must return 0 and consume nothing; a read after end of file must return 0), pipes the bytes it read to vdpll and hands the reply back in chunks (whole, byte by byte, fixed, random): same comparison of the bytes read with the Coq printer, same python parser, same answers as the model. (b) generated replies through the real reader (ExternalSatSolver on `vdpll --print-file`): well-formed layouts (status first/last, any split of v lines, comments, empty lines, bare `v`, CRLF, tabs, `+` signs, UTF-8 comments) must yield the printed model / UNSAT; ill-formed classes (empty, no status, truncated before the 0, garbage line, status only, variable out of bounds, two zeros, two status lines, invalid UTF-8) must yield Unknown or a panic; random byte mutations compared with Dimacs.reply_parse only; one reply in 60 goes through a child process, the others (reply-inproc) are returned by the solving function of an in-process BufferedSatSolver, delivered whole / byte by byte / in fixed or random small chunks, after reading or not reading the instance. (c) stub solvers emitting 0 B ... 4 MiB (8 MiB thorough) of comments before the answer, reading all / none of stdin, instance below / above the pipe capacity, each call under a 10 s watchdog; outcome compared with Model.Pipe run in the order found in exec_solver's source",
         "samples": samples,
         "distribution": dist,
         "traces_validated_against_impl": n_inst + n_reply + n_pipe,
